@@ -139,6 +139,7 @@ func propC03(c *Ctx) {
 			}
 		}
 	}
+	propScaleExpressions(c, "C03")
 	// user-supplied functions failing in every way a Go function can: the failure surfaces as an error
 	runUserFunctionFailures(c)
 	// object histories: no sequence of calls on one calculator may panic either
